@@ -315,8 +315,9 @@ namespace
         else if (less(last_dealloc_prev, memory) && less(memory, last_dealloc))
             // insert before last_dealloc
             return {last_dealloc_prev, last_dealloc};
-        else if (less(memory, last_dealloc))
+        else if (last_dealloc == end_node || less(memory, last_dealloc))
             // insert into [first, last_dealloc_prev]
+            // note: the end proxy node is part of the list object, its address must not be compared with memory
             return find_pos_interval(info, memory, begin_node, first, last_dealloc_prev,
                                      last_dealloc);
         else if (greater(memory, last_dealloc))
